@@ -1,8 +1,8 @@
 """C03 - type references bind to the entity the scoping rules designate (structural clauses)."""
 import re
 
-from mirlib import AnchorMissing, path_matches, op_place
-from helpers import (aggregates, arm, base_local, enum_switches, edge_region, field_accesses, loop_of, must_pass, vexpr, branches_on_call, try_edges)
+from mirlib import AnchorMissing, path_matches, op_place, is_bare
+from helpers import (aggregates, closure_of_arg, arm, base_local, enum_switches, edge_region, field_accesses, loop_of, must_pass, vexpr, branches_on_call, try_edges)
 import guards
 import rule_scopes
 
@@ -271,10 +271,24 @@ def r_name_table_single_writer(r, prog):
             r.ok('add_element::<%s> (not a NamedSymbol) in %s' % (t.rsplit('::', 1)[-1], c.fn.path.rsplit('::', 1)[-1]))
     ane = prog.fn(A + '::add_named_element')
     ins = [c for c in ane.calls() if c.name() == 'insert']
-    if ins and 'parser_scoped_identifier(' in vexpr(ane, ins[0].args[1]) and vexpr(ane, ins[0].args[2]) == 'len(arg1.elements)' and must_pass(ane, 0, ane.return_blocks(), [ins[0].bb]):
-        r.ok('the name registered is parser_scoped_identifier() and the index is that of the element about to be pushed')
+    # the element is registered on every path but one: the name is already that of a primitive type (only possible for an element of a file
+    # without a module declaration; the parser looks the primitives up by name, so they keep their entries)
+    def registered_unless_primitive():
+        import guards as _g
+        from mirlib import const_int
+        brs = branches_on_call(ane, lambda c: c.name() == 'is_some_and' and 'get(arg1.lookup_table,' in vexpr(ane, c.args[0]))
+        if len(brs) != 1 or not must_pass(ane, brs[0]['false'], ane.return_blocks(), [ins[0].bb]) or not ane.dominates(brs[0]['bb'], ins[0].bb):
+            return False
+        cl = closure_of_arg(prog, ane, brs[0]['call'].args[1])
+        if cl is None or vexpr(ane, brs[0]['call'].args[1]) != 'closure(arg1.elements)':
+            return False
+        ones = [bb for bb, j, lhs, rv, st in cl.assigns() if lhs['l'] == 0 and is_bare(lhs) and rv['k'] == 'use' and const_int(rv['a']) == 1]
+        return bool(ones) and all(any(re.search(r'^index\(arg1\.0,arg2\) is Primitive$', g) for g in _g.guard_set(prog, cl, bb)) for bb in ones)
+    if ins and 'parser_scoped_identifier(' in vexpr(ane, ins[0].args[1]) and vexpr(ane, ins[0].args[2]) == 'len(arg1.elements)' \
+            and registered_unless_primitive():
+        r.ok('the name registered is parser_scoped_identifier() and the index is that of the element about to be pushed (a primitive type keeps its entry)')
     else:
-        r.finding('name-registration', ane.span, 'add_named_element does not register parser_scoped_identifier() -> elements.len() on every path')
+        r.finding('name-registration', ane.span, 'add_named_element does not register parser_scoped_identifier() -> elements.len() on every path but the one where the name is held by a primitive type (which must keep its entry: the parser unwraps the lookup of a primitive)')
     fld = [f for f in prog.adts[A]['variants'][0]['fields'] if f['n'] == 'lookup_table'][0]
     if fld['vis'] != 'pub' and 'Public' not in (ane.vis or ''):
         r.ok('lookup_table is private and add_named_element is not public')
